@@ -3796,7 +3796,11 @@ impl<'data, P: Platform> ObjectLayoutState<'data, P> {
         section_index: SectionIndex,
         scope: &Scope<'scope>,
     ) -> Result<(), Error> {
-        match &self.sections[section_index.0] {
+        let slot = self
+            .sections
+            .get(section_index.0)
+            .with_context(|| format!("Invalid section index {} in {self}", section_index.0))?;
+        match slot {
             SectionSlot::Unloaded(unloaded) | SectionSlot::MustLoad(unloaded) => {
                 self.load_section::<A>(common, queue, *unloaded, section_index, resources, scope)?;
             }
@@ -4257,7 +4261,7 @@ impl<'data> SymbolCopyInfo<'data> {
         }
 
         if let Ok(Some(section)) = object.symbol_section(sym, sym_index)
-            && !sections[section.0].is_loaded()
+            && !sections.get(section.0).is_some_and(|slot| slot.is_loaded())
         {
             // Symbol is in a discarded section.
             return None;
